@@ -312,6 +312,163 @@ fn sync_scenario(rng: &mut StdRng, sc: usize, out: Box<dyn std::io::Write>, kv: 
     (out, lines, panics)
 }
 
+/// C07: several peers, every quorum size, honest and lying check point vectors of different lengths
+/// and start indices, malformed BlockFilterCheckPoints, random order of messages and refresh ticks.
+fn cp_scenario(rng: &mut StdRng, sc: usize, out: Box<dyn std::io::Write>, kv: &HashMap<String, String>) -> (Box<dyn std::io::Write>, u64, Vec<String>) {
+    use crate::verif::env::CpLie;
+    let interval = *[2u64, 3, 4][..].get(rng.gen_range(0..3)).unwrap();
+    let main_len = rng.gen_range((4 * interval as usize)..=(arg_u64(kv, "maxlen", 36) as usize).max(4 * interval as usize + 1));
+    let last_n = *[2u64, 3][..].get(rng.gen_range(0..2)).unwrap();
+    let max_outbound = rng.gen_range(1..=5u32);
+    let npeers = rng.gen_range(1..=((max_outbound as usize + 1).min(5)));
+    let required = ((max_outbound + 1) / 2) as usize;
+    let built = build_tx_world(rng, "dummy", main_len, 0, 1, 1);
+    let cfg = Config { last_n, max_outbound, interval, blocks_in_transit: 2 };
+    let leaf = built.leaves[0];
+    let mut sim: Sim = new_sim(built.chain, cfg, npeers, out, &format!("cp-{}", sc), vec!["peersync", "filter"]);
+    let nleaf = sim.chain.blocks[leaf].num;
+    let tips: Vec<(usize, usize)> = (0..npeers)
+        .map(|_| (sim.chain.ancestor_at(leaf, rng.gen_range((nleaf / 2).max(1)..=nleaf)).unwrap(), leaf))
+        .collect();
+    let mut env = Env::new(&sim, &tips);
+    for ep in env.peers.iter_mut() {
+        ep.server.cp_batch = rng.gen_range(2..=6);
+        ep.server.v1 = rng.gen_bool(0.7);
+    }
+    // who lies, from which index on, and with whom (same group = same invented values)
+    let p_lie = *[0.0, 0.25, 0.5][..].get(rng.gen_range(0..3)).unwrap();
+    let lies: Vec<Option<CpLie>> = (0..npeers)
+        .map(|_| if rng.gen_bool(p_lie) { Some(CpLie { from: rng.gen_range(1..=(nleaf / interval).max(1)), group: rng.gen_range(0..2) }) } else { None })
+        .collect();
+    let liars: Vec<String> = (0..npeers).filter(|i| lies[*i].is_some()).map(|i| crate::verif::project::pname(sim.names[i])).collect();
+    sim.reset(json!({"mode": "cp", "liars": liars, "required": required}));
+    env.set_scripts(&mut sim, "all", &[(0, false, 0)]);
+    let steps = arg_u64(kv, "steps", 160);
+    for _ in 0..steps {
+        let i = rng.gen_range(0..npeers);
+        match rng.gen_range(0..100) {
+            0..=7 => {
+                if !env.peers[i].connected {
+                    env.connect(&mut sim, i);
+                }
+            }
+            8 => {
+                if env.peers[i].connected && rng.gen_bool(0.5) {
+                    env.disconnect(&mut sim, i);
+                }
+            }
+            9..=20 => {
+                if env.peers[i].connected {
+                    env.send_last_state(&mut sim, i);
+                    env.enforce_bans(&mut sim);
+                }
+            }
+            21..=32 => {
+                if env.peers[i].connected {
+                    env.answer_proof(&mut sim, i);
+                    env.enforce_bans(&mut sim);
+                }
+            }
+            33..=46 => {
+                env.refresh(&mut sim);
+                env.enforce_bans(&mut sim);
+            }
+            47..=58 => env.filter_tick(&mut sim, 2, rng.gen_bool(0.7)),
+            59..=80 => {
+                if env.peers[i].connected {
+                    env.answer_cp(&mut sim, i, interval, lies[i]);
+                    env.enforce_bans(&mut sim);
+                }
+            }
+            81..=88 => {
+                // malformed or unsolicited messages; none of them carries an invented value that is accepted
+                if env.peers[i].connected {
+                    let dump = sim.client().peers.verif_dump();
+                    let p = env.peers[i].idx;
+                    if let Some((_, d)) = dump.peers.iter().find(|(q, _)| *q == p) {
+                        let (cstart, cvals) = (d.check_points.0 as u64, d.check_points.1.clone());
+                        let next = (cstart + cvals.len() as u64 - 1) * interval;
+                        let good = env.cp_values(&sim, i, next, interval, rng.gen_range(2..=5), lies[i]);
+                        match rng.gen_range(0..7) {
+                            0 => env.send_check_points(&mut sim, i, next, vec![], "empty"),
+                            1 => env.send_check_points(&mut sim, i, next + 1, good, "unaligned"),
+                            2 => env.send_check_points(&mut sim, i, next + interval, good, "ahead"),
+                            3 => env.send_check_points(&mut sim, i, next.saturating_sub(interval), good, "behind"),
+                            4 => {
+                                let mut v = good;
+                                if !v.is_empty() {
+                                    v[0] = crate::verif::env::fake_cp(7, next / interval);
+                                }
+                                env.send_check_points(&mut sim, i, next, v, "discontinuous")
+                            }
+                            5 => env.send_check_points(&mut sim, i, next, good.into_iter().take(1).collect(), "single"),
+                            _ => env.send_check_points(&mut sim, i, next, good, "unsolicited"),
+                        }
+                        env.enforce_bans(&mut sim);
+                    }
+                }
+            }
+            89..=93 => {
+                env.grow(&sim, i, rng.gen_range(1..=4));
+            }
+            94..=96 => sim.advance(rng.gen_range(1..=3)),
+            97 => {
+                if rng.gen_bool(0.3) {
+                    env.restart(&mut sim);
+                }
+            }
+            _ => {
+                if env.peers[i].connected {
+                    env.answer_filter(&mut sim, i, interval);
+                    env.enforce_bans(&mut sim);
+                }
+            }
+        }
+    }
+    // convergence: everybody at the leaf, all traffic answered (the liars keep lying)
+    for i in 0..npeers {
+        env.grow(&sim, i, u64::MAX / 2);
+    }
+    for _ in 0..(main_len / 2 + 10) {
+        for i in 0..npeers {
+            if !env.peers[i].connected {
+                env.connect(&mut sim, i);
+            }
+            env.send_last_state(&mut sim, i);
+            env.enforce_bans(&mut sim);
+        }
+        env.refresh(&mut sim);
+        env.enforce_bans(&mut sim);
+        for i in 0..npeers {
+            while env.peers[i].connected && env.answer_proof(&mut sim, i) {
+                env.enforce_bans(&mut sim);
+            }
+        }
+        env.filter_tick(&mut sim, 2, true);
+        for _ in 0..50 {
+            let mut any = false;
+            for i in 0..npeers {
+                if env.peers[i].connected && env.answer_cp(&mut sim, i, interval, lies[i]) {
+                    any = true;
+                    env.enforce_bans(&mut sim);
+                }
+            }
+            if !any {
+                break;
+            }
+        }
+        env.refresh(&mut sim);
+        env.enforce_bans(&mut sim);
+        sim.advance(1);
+    }
+    let honest: Vec<String> = (0..npeers).filter(|i| lies[*i].is_none() && env.peers[*i].connected).map(|i| crate::verif::project::pname(sim.names[i])).collect();
+    sim.step("CpQuiescent", json!({"honest": honest, "leaf": leaf + 1}), |_| Ok(()));
+    let lines = sim.lines;
+    let panics = sim.panics.clone();
+    let out = std::mem::replace(&mut sim.out, Box::new(std::io::sink()));
+    (out, lines, panics)
+}
+
 /// Fine-grained random interleaving of every environment action: announcements, proofs, all ticks,
 /// filter / blocks-proof / txs-proof answers, single block deliveries, set_scripts (all commands,
 /// empty lists, duplicates), fetch RPCs, growth, restarts, and (profile fork) a switch of the
@@ -801,6 +958,7 @@ pub fn run(kv: &HashMap<String, String>) -> i32 {
             "advsub" => adv_scenario(&mut rng, sc, out, kv, true),
             "sync" | "scripts" | "fetch" | "forkrand" => rand_scenario(&mut rng, sc, out, kv, if mode == "forkrand" { "fork" } else { &mode }),
             "fork" => fork_scenario(&mut rng, sc, out, kv),
+            "cp" => cp_scenario(&mut rng, sc, out, kv),
             _ => {
                 eprintln!("unknown mode {}", mode);
                 return 2;
